@@ -14,15 +14,15 @@ use crate::engine::{finish, guarded, par_range, run_witnesses, Acc, Run, Summary
 pub fn families(tier: Tier) -> Vec<Family> {
     let t = tier.thorough();
     let mut v = Vec::new();
-    let g3 = if t { 8 } else { 5 };
+    let g3 = if t { 8 } else { 6 };
     for (scale, origin) in [(1.0f32, (0.0f32, 0.0f32)), (7.5, (0.0, 0.0))] {
         v.push(Family { n: 1, g: 1, scale, origin, layouts: layouts(1) });
         v.push(Family { n: 2, g: g3, scale, origin, layouts: layouts(2) });
     }
     v.push(Family { n: 3, g: g3, scale: 1.0, origin: (0.0, 0.0), layouts: layouts(3) });
-    v.push(Family { n: 3, g: if t { 5 } else { 3 }, scale: 37.5, origin: (0.0, 0.0), layouts: layouts(3) });
+    v.push(Family { n: 3, g: if t { 5 } else { 4 }, scale: 37.5, origin: (0.0, 0.0), layouts: layouts(3) });
     v.push(Family { n: 3, g: 3, scale: 1.0, origin: (256.0, -192.0), layouts: layouts(3) });
-    v.push(Family { n: 3, g: if t { 4 } else { 2 }, scale: 4096.0, origin: (0.0, 0.0), layouts: layouts(3) });
+    v.push(Family { n: 3, g: if t { 4 } else { 3 }, scale: 4096.0, origin: (0.0, 0.0), layouts: layouts(3) });
     v.push(Family { n: 4, g: if t { 2 } else { 1 }, scale: 1.0, origin: (0.0, 0.0), layouts: layouts(4) });
     v.push(Family { n: 4, g: 1, scale: 300.0, origin: (0.0, 0.0), layouts: layouts(4) });
     if t {
